@@ -1325,6 +1325,15 @@ impl Kernel {
         self.post_now(r, cqe);
     }
 
+    /// A completion produced while the request is being submitted (refused at
+    /// prep, CLOSE, cancel and msg_ring results): it is not task work, so a
+    /// DEFER_TASKRUN ring sees it at once.
+    pub fn post_inline(&mut self, r: usize, cqe: Cqe) {
+        stats::inc(C::total_cqes);
+        self.rings[r].posted += 1;
+        self.post_now(r, cqe);
+    }
+
     fn post_now(&mut self, r: usize, cqe: Cqe) {
         crate::sched::progress();
         self.observe(r);
@@ -1488,8 +1497,12 @@ impl Kernel {
             if flags & ENTER_SQ_WAIT != 0 && self.rings[r].sq_awake {
                 self.consume(r, u32::MAX);
             }
-            if self.rings[r].sq_awake {
-                // The kernel thread picks up what is there sooner or later.
+            if self.rings[r].sq_awake
+                && (self.in_ring_drop || min_complete > 0 || !tape::chance(site::KSTEP, 1, 3))
+            {
+                // The kernel thread picks up what is there sooner or later:
+                // mostly by the time this call returns, sometimes only afterwards
+                // (always before a call that waits for completions sleeps).
                 self.consume(r, u32::MAX);
             }
         } else {
@@ -1755,6 +1768,29 @@ impl Kernel {
             }
             UNREGISTER_PBUF_RING => {
                 let reg = unsafe { arg.cast::<BufReg>().read() };
+                // C01: a request in flight that selects its buffers from this
+                // group has been handed the pool's memory; the pool goes away
+                // under it.
+                let users: Vec<u32> = self.rings[r]
+                    .inflight_kids()
+                    .into_iter()
+                    .filter(|k| {
+                        let rec = &self.records[*k as usize];
+                        rec.sqe.flags() & SQE_BUFFER_SELECT != 0 && rec.sqe.buf_group() == reg.bgid
+                    })
+                    .collect();
+                if let Some(k) = users.first() {
+                    if self.rings[r].pbufs.contains_key(&reg.bgid) && !self.in_ring_drop {
+                        violation(
+                            "mem.freed-while-kernel-owns",
+                            format!(
+                                "buffer pool (group {}) unregistered and about to be freed while {} (k{k}) is in flight and selects its buffers from it",
+                                reg.bgid,
+                                op_name(self.records[*k as usize].opcode)
+                            ),
+                        );
+                    }
+                }
                 match self.rings[r].pbufs.remove(&reg.bgid) {
                     Some(p) => {
                         for pin in p.pins {
